@@ -61,6 +61,17 @@ pub struct AppSpec {
     /// road class / vehicle restriction data for the edge matcher (independent of the frontier)
     pub matcher_classes: Option<Vec<u8>>,
     pub matcher_vehicle_rows: Option<Vec<(usize, String, f64, String)>>,
+    /// energy traversal model instead of the world's distance / speed model (speed table taken from the world)
+    pub energy: Option<EnergySpec>,
+}
+
+#[derive(Clone, Debug)]
+pub struct EnergySpec {
+    /// "ice" | "bev" | "phev"
+    pub vehicle: String,
+    pub grades: Vec<f64>,
+    pub cache: bool,
+    pub capacity_kwh: f64,
 }
 
 impl AppSpec {
@@ -82,6 +93,7 @@ impl AppSpec {
             geom_truncate: 0,
             matcher_classes: None,
             matcher_vehicle_rows: None,
+            energy: None,
         }
     }
 }
@@ -311,6 +323,36 @@ pub fn write_config(spec: &AppSpec, dir: &Path) -> std::io::Result<(PathBuf, Str
         t.push_str(&format!("n_edges = {}\nn_vertices = {}\n", net.ne(), net.nv()));
     }
     // state + traversal
+    let mut energy_done = false;
+    if let (Some(en), TravCfg::Speed { speeds, speed_unit, dist_unit, time_unit }) = (&spec.energy, &w.trav) {
+        let p = dir.join("speeds.txt");
+        std::fs::write(&p, speeds.iter().map(|s| format!("{s:?}")).collect::<Vec<_>>().join("\n") + "\n")?;
+        let gp = dir.join("grades.txt");
+        std::fs::write(&gp, en.grades.iter().map(|s| format!("{s:?}")).collect::<Vec<_>>().join("\n") + "\n")?;
+        let mdir = "/repo/rust/routee-compass-powertrain/src/routee/test";
+        let cache = if en.cache { ", float_cache_policy = { cache_size = 64, key_precisions = [3, 5] }" } else { "" };
+        let model = |name: &str, file: &str, eru: &str| format!("name = \"{name}\", model_input_file = \"{mdir}/{file}\", model_type = \"smartcore\", speed_unit = \"miles_per_hour\", grade_unit = \"decimal\", energy_rate_unit = \"{eru}\", ideal_energy_rate = 0.05{cache}");
+        let vehicle = match en.vehicle.as_str() {
+            "ice" => format!("{{ type = \"ice\", {} }}", model("ice", "Toyota_Camry.bin", "gallons_gasoline_per_mile")),
+            "bev" => format!("{{ type = \"bev\", battery_capacity = {:?}, battery_capacity_unit = \"kilowatt_hours\", {} }}", en.capacity_kwh, model("bev", "2017_CHEVROLET_Bolt.bin", "kilowatt_hours_per_mile")),
+            _ => format!(
+                "{{ type = \"phev\", name = \"phev\", battery_capacity = {:?}, battery_capacity_unit = \"kilowatt_hours\", charge_depleting = {{ {} }}, charge_sustaining = {{ {} }} }}",
+                en.capacity_kwh,
+                model("cd", "2016_CHEVROLET_Volt_Charge_Depleting.bin", "kilowatt_hours_per_mile"),
+                model("cs", "2016_CHEVROLET_Volt_Charge_Sustaining.bin", "gallons_gasoline_per_mile")
+            ),
+        };
+        t.push_str(&format!(
+            "\n[traversal]\ntype = \"energy_model\"\ngrade_table_input_file = {}\ngrade_table_grade_unit = \"decimal\"\ndistance_unit = \"{du}\"\ntime_unit = \"{tu}\"\nvehicles = [{vehicle}]\n\n[traversal.time_model]\ntype = \"speed_table\"\nspeed_table_input_file = {}\nspeed_unit = \"{su}\"\ndistance_unit = \"{du}\"\ntime_unit = \"{tu}\"\n",
+            tstr(gp.to_str().unwrap_or("")),
+            tstr(p.to_str().unwrap_or("")),
+            du = dist_unit,
+            tu = time_unit,
+            su = speed_unit
+        ));
+        energy_done = true;
+    }
+    if !energy_done {
     match &w.trav {
         TravCfg::Distance { unit } => {
             t.push_str(&format!("\n[state]\ndistance = {{ distance_unit = \"{}\", initial = {:?} }}\n", w.state.dist_unit, w.state.dist_init));
@@ -327,6 +369,7 @@ pub fn write_config(spec: &AppSpec, dir: &Path) -> std::io::Result<(PathBuf, Str
                 time_unit
             ));
         }
+    }
     }
     // access
     match &w.access {
